@@ -734,21 +734,20 @@ impl Parser {
                     ExprEnum::Op(Op::GreaterThan, Box::new(x), Box::new(y)),
                     meta,
                 ),
+                // `x <= y` is `!(x > y)`: both operands are evaluated exactly once
                 TokenEnum::LessThanEquals => {
-                    let lt = Expr::untyped(
-                        ExprEnum::Op(Op::LessThan, Box::new(x.clone()), Box::new(y.clone())),
+                    let gt = Expr::untyped(
+                        ExprEnum::Op(Op::GreaterThan, Box::new(x), Box::new(y)),
                         meta,
                     );
-                    let eq = Expr::untyped(ExprEnum::Op(Op::Eq, Box::new(x), Box::new(y)), meta);
-                    Expr::untyped(ExprEnum::Op(Op::BitOr, Box::new(lt), Box::new(eq)), meta)
+                    Expr::untyped(ExprEnum::UnaryOp(UnaryOp::Not, Box::new(gt)), meta)
                 }
                 TokenEnum::GreaterThanEquals => {
                     let lt = Expr::untyped(
-                        ExprEnum::Op(Op::GreaterThan, Box::new(x.clone()), Box::new(y.clone())),
+                        ExprEnum::Op(Op::LessThan, Box::new(x), Box::new(y)),
                         meta,
                     );
-                    let eq = Expr::untyped(ExprEnum::Op(Op::Eq, Box::new(x), Box::new(y)), meta);
-                    Expr::untyped(ExprEnum::Op(Op::BitOr, Box::new(lt), Box::new(eq)), meta)
+                    Expr::untyped(ExprEnum::UnaryOp(UnaryOp::Not, Box::new(lt)), meta)
                 }
                 _ => unreachable!(),
             }
